@@ -134,6 +134,23 @@ func checkView(cow afero.Fs, want map[string]viewEntry) string {
 				f.Close()
 				return fmt.Sprintf("listing of %s through the union is %v, overlay-over-base gives %v", p, names, e.listing)
 			}
+			// the entries of the listing are the view's entries: kind and size of each listed FileInfo
+			// are those of the overlay's entry if the overlay has the name, else the base's
+			if g, err := cow.Open(p); err == nil {
+				fis, _ := g.Readdir(-1)
+				g.Close()
+				for _, ci := range fis {
+					child, ok := want[filepath.Join(p, ci.Name())]
+					if !ok {
+						continue
+					}
+					if ci.IsDir() != child.dir || (!child.dir && ci.Size() != int64(len(child.data))) {
+						f.Close()
+						return fmt.Sprintf("listing of %s: entry %s has dir=%v size=%d, the overlay-over-base entry has dir=%v size=%d",
+							p, ci.Name(), ci.IsDir(), ci.Size(), child.dir, len(child.data))
+					}
+				}
+			}
 			// a second full listing on the same handle returns nothing more
 			more, _ := f.Readdirnames(-1)
 			if len(more) != 0 {
@@ -444,6 +461,23 @@ func cowExhaustive(tier string) []corr.Case {
 			}
 		}
 	}
+	// a wide directory (more entries than any small-slice special case of a sort or a map): every
+	// name in both layers with different sizes, listed whole and in pages
+	for _, st := range stacks {
+		for _, w := range []int{7, 13, 24} {
+			l := []string{"case " + st, "b.mkdirall " + h("/d") + " 493", "l.mkdirall " + h("/d") + " 493"}
+			nh := 0
+			for k := 0; k < w; k++ {
+				name := fmt.Sprintf("/d/w%02d", (k*7)%w)
+				l = append(l, "b.create "+h(name), fmt.Sprintf("h.write %d 6262626262", nh), fmt.Sprintf("h.close %d", nh),
+					"l.create "+h(name), fmt.Sprintf("h.write %d 6c", nh+1), fmt.Sprintf("h.close %d", nh+1))
+				nh += 2
+			}
+			l = append(l, "b.age", "open "+h("/d"), fmt.Sprintf("h.readdir %d -1", nh), "open "+h("/d"), fmt.Sprintf("h.readdir %d 5", nh+1),
+				fmt.Sprintf("h.readdir %d 5", nh+1), fmt.Sprintf("h.readdir %d -1", nh+1), "stat "+h("/d/w03"), "snapshot")
+			cases = append(cases, corr.Case{Lines: l})
+		}
+	}
 	return cases
 }
 
@@ -473,6 +507,21 @@ func cowRandom(r *corr.Rand, tier string) []corr.Case {
 					l = append(l, fmt.Sprintf("%s.mkdirall %s 493", pfx, h(filepath.Dir(f))), fmt.Sprintf("%s.create %s", pfx, h(f)),
 						fmt.Sprintf("h.write %d %s", nh, corr.Hex(payload(rr, 1+rr.Intn(12)))), fmt.Sprintf("h.close %d", nh))
 					nh++
+				}
+			}
+		}
+		// a wide directory: many names, most of them in both layers with different contents
+		if rr.Chance(15) {
+			w := 8 + rr.Intn(16)
+			l = append(l, "b.mkdirall "+h("/d")+" 493", "l.mkdirall "+h("/d")+" 493")
+			for k := 0; k < w; k++ {
+				name := fmt.Sprintf("/d/w%02d", k)
+				for _, pfx := range []string{"b", "l"} {
+					if rr.Chance(85) {
+						l = append(l, fmt.Sprintf("%s.create %s", pfx, h(name)),
+							fmt.Sprintf("h.write %d %s", nh, corr.Hex(payload(rr, 1+rr.Intn(9)))), fmt.Sprintf("h.close %d", nh))
+						nh++
+					}
 				}
 			}
 		}
